@@ -9,6 +9,8 @@ tuple field `.0` (the SyntaxNode of the wrapper struct), turbofish on a method (
 carry no behaviour), closures with a block body, string-literal patterns.  Rendering rules:
   self.0                                  the node itself
   .first_token() / .children_with_tokens()     rw_first_token / rw_children_with_tokens
+  self.0.text_range() / self.0.kind()     rw_text_range / rw_kind of the NODE (not used by the current source; rendered so
+                                          that `first_token()?.text_range()` -> `text_range()` is a failing proof, not a refusal)
   <elem>.kind() / .as_token() ; <token>.text() / .text_range() / .kind()     rw_kind / rw_as_token / rw_text / rw_text_range
   self.<accessor>() , x.<accessor>()      acc_opt / acc_list over the GENERATED accessor table (mode read from t_ast)
   e?                                      early `return None` (the function must return an Option)
